@@ -13,14 +13,14 @@ SPEC = {
     "floors": {
         "quick": {"enum_b3_single_byte_mutants_51": 13056, "enum_jaeger_single_byte_mutants_54": 13824,
                   "enum_multi_id_single_byte_mutants": 4096, "enum_multi_sampled_values": 89,
-                  "enum_flag_bytes_x_propagators": 768 * 3, "roundtrips": 20000,
+                  "enum_flag_bytes_x_propagators": 768 * 3, "roundtrips": 20000, "roundtrips_reused_carrier": 6000,
                   "roundtrips_b3single": 7000, "roundtrips_b3multi": 7000, "roundtrips_jaeger": 7000,
                   "roundtrips_flags_other_bits": 12000, "inject_wire_judged": 15000,
                   "extract_must_accept": 10000, "extract_undocumented_form": 30000,
                   "extract_b3_precedence_cases": 1800, "extracts_random_bytes": 3500},
         "thorough": {"enum_b3_single_byte_mutants_51": 13056 * 110, "enum_jaeger_single_byte_mutants_54": 13824 * 110,
                      "enum_multi_id_single_byte_mutants": 12288 * 37, "enum_flag_bytes_x_propagators": 768 * 450,
-                     "roundtrips": 3000000, "roundtrips_flags_other_bits": 1800000, "inject_wire_judged": 3000000,
+                     "roundtrips": 3000000, "roundtrips_reused_carrier": 900000, "roundtrips_flags_other_bits": 1800000, "inject_wire_judged": 3000000,
                      "extract_must_accept": 1800000, "extract_undocumented_form": 7500000,
                      "extract_b3_precedence_cases": 300000, "extracts_random_bytes": 600000},
     },
